@@ -16,6 +16,7 @@ from spacepackets.cfdp.defs import PduType, Direction, CrcFlag, LargeFileFlag, S
 from spacepackets.crc import CRC16_CCITT_FUNC
 from props.c05 import _conf, _fields as hdr_fields, spec_pack as hdr_spec_pack, with_crc, rand_val, vmax, WIDTHS
 from props.c05 import shared_conf, conf_untouched, contrast_conf, decoded_alone
+from props.c05 import conf_form_variants
 
 CONF_KEYS = ["src_w", "src_v", "dst_w", "dst_v", "seq_w", "seq_v", "mode", "large", "crc", "dir", "segctrl"]
 CONF_FLAGS = ["mode", "large", "crc", "dir", "segctrl"]
@@ -504,6 +505,11 @@ class C07(Prop):
                     yield dec_case(spec_fd(a), "nb-width", rbytes(rng, 3))
 
     def cases(self, rng: random.Random, tier: str) -> Iterator[Case]:
+        """the generated stream, then a share of its valid configuration-carrying cases once more with the five PduConfig
+        flags as plain ints / bools (props.c05.conf_form_variants; case key forms.conf)"""
+        yield from conf_form_variants(self._cases_members(rng, tier), rng, share=0.08)
+
+    def _cases_members(self, rng: random.Random, tier: str) -> Iterator[Case]:
         thorough = tier == "thorough"
 
         # --- exhaustive: 2^5 flag combinations x 16 width combinations x metadata absent/present ---
